@@ -6,6 +6,7 @@ import (
 	"context"
 	"errors"
 	"fmt"
+	"go.opentelemetry.io/collector/pdata/plog"
 	"sync"
 
 	"github.com/open-telemetry/otel-arrow/pkg/otel/arrow_record"
@@ -188,7 +189,100 @@ func runMemLimit(o opts, out *Output) {
 		}
 		out.AddCase(map[string]any{"case": c, "batches": len(bars), "wide": g.Wide, "per_limit": perLimit}, true, fmt.Sprintf("batches=%d wide=%v", len(bars), g.Wide))
 	}
+	runSchemaSwitch(o, out, r, stats)
 	out.Extra["stats"] = stats
+}
+
+// runSchemaSwitch: a big batch A, then a small batch B in which every payload type of A appears again under a NEW schema id
+// (the consumer releases the superseded readers before it opens the new ones, so the memory B needs does not depend on A):
+// over a sweep of limits, once B decodes it must keep decoding under every larger limit.
+func runSchemaSwitch(o opts, out *Output, r *Rng, stats map[string]int) {
+	limits := []uint64{8 << 10, 12 << 10, 16 << 10, 24 << 10, 32 << 10, 48 << 10, 64 << 10, 96 << 10, 128 << 10, 192 << 10, 256 << 10, 384 << 10, 512 << 10, 1 << 20, 4 << 20, 70 << 20}
+	nCases := 6
+	if o.tier == "thorough" {
+		nCases = 60
+	}
+	for c := 0; c < nCases; c++ {
+		na, nb := 100+r.Intn(400), 5+r.Intn(60)
+		mk := func(n int, second bool) plog.Logs {
+			ld := plog.NewLogs()
+			sl := ld.ResourceLogs().AppendEmpty().ScopeLogs().AppendEmpty()
+			for i := 0; i < n; i++ {
+				lr := sl.LogRecords().AppendEmpty()
+				if second {
+					lr.Body().SetInt(int64(i))
+					lr.Attributes().PutInt("n", int64(i%5))
+					lr.SetSeverityText("warn")
+				} else {
+					lr.Body().SetStr(fmt.Sprintf("a long enough body text number %d of the first batch", i))
+					lr.Attributes().PutStr("k", fmt.Sprintf("value-%d", i%50))
+				}
+			}
+			return ld
+		}
+		prod := arrow_record.NewProducer()
+		barA, errA := prod.BatchArrowRecordsFromLogs(mk(na, false))
+		barB, errB := prod.BatchArrowRecordsFromLogs(mk(nb, true))
+		_ = prod.Close()
+		if errA != nil || errB != nil {
+			continue
+		}
+		// precondition: every payload type of A reappears in B, no schema id of A is used by B
+		sidsA, typesA := map[string]bool{}, map[colarspb.ArrowPayloadType]bool{}
+		for _, p := range barA.ArrowPayloads {
+			sidsA[p.SchemaId], typesA[p.Type] = true, true
+		}
+		okPre := true
+		typesB := map[colarspb.ArrowPayloadType]bool{}
+		for _, p := range barB.ArrowPayloads {
+			typesB[p.Type] = true
+			if sidsA[p.SchemaId] {
+				okPre = false
+			}
+		}
+		for t := range typesA {
+			if !typesB[t] {
+				okPre = false
+			}
+		}
+		if !okPre {
+			stats["switch_precondition_not_met"]++
+			continue
+		}
+		decodedAt := uint64(0)
+		var perLimit []map[string]any
+		for _, lim := range limits {
+			cons := arrow_record.NewConsumer(arrow_record.WithMemoryLimit(lim))
+			classOf := func(bar *colarspb.BatchArrowRecords) (cl string) {
+				defer func() {
+					if rec := recover(); rec != nil {
+						cl = "panic"
+					}
+				}()
+				_, err := cons.LogsFrom(bar)
+				switch {
+				case err == nil:
+					return "ok"
+				case errors.Is(err, arrow_record.ErrConsumerMemoryLimit):
+					return "limit"
+				}
+				return "error"
+			}
+			ca, cb := classOf(barA), classOf(barB)
+			_ = cons.Close()
+			perLimit = append(perLimit, map[string]any{"limit": lim, "A": ca, "B": cb})
+			if cb == "ok" && decodedAt == 0 {
+				decodedAt = lim
+			}
+			if cb == "limit" && decodedAt != 0 {
+				out.Violation("C14", "limit-not-monotone-after-schema-change", fmt.Sprintf("a %d-record batch arriving under new schema ids after a %d-record batch decodes under limit %d but is refused under the larger limit %d", nb, na, decodedAt, lim),
+					map[string]any{"seed": o.seed, "switch_case": c, "records_A": na, "records_B": nb, "per_limit": perLimit})
+				break
+			}
+		}
+		stats["switch_cases"]++
+		out.AddCase(map[string]any{"switch_case": c, "records_A": na, "records_B": nb, "per_limit": perLimit}, true, "schema switch")
+	}
 }
 
 func sigOf(msg string) string {
